@@ -24,7 +24,7 @@ META = {
     "encoded": ["memory._Namespace.is_available", "memory._Namespace.assign", "memory._Namespace.extend",
                 "memory._Namespace.names", "memory.MemoryMap.Name.__new__", "memory.MemoryMap.add_resource",
                 "memory.MemoryMap.add_window", "memory.MemoryMap.all_resources"],
-    "also": "alphabet {'a','b','ab','0',0,300} (300 is not cached by CPython; concrete replays build fresh objects); the same Name object re-used; names handed back from resources(); anonymous windows nested two deep; refused windows must stay usable; anonymous windows also mapped into a second parent with names of its own; named windows nested two deep with equal leaf names; anonymous windows holding named windows; one resource object under one name in two anonymously mapped windows; per-call alignment on resources with the placement cursor part of 'a refusal changes nothing'; internal TypeErrors on well-formed names are violations; heavy shapes split over processes by the first part",
+    "also": "alphabet {'a','b','ab','0',0,300} (300 is not cached by CPython; concrete replays build fresh objects); the same Name object re-used; names handed back from resources(); anonymous windows nested two deep; refused windows must stay usable; anonymous windows also mapped into a second parent with names of its own; named windows nested two deep with equal leaf names; anonymous windows holding named windows; the plain-string shorthand for one-part names; one resource object under one name in two anonymously mapped windows; per-call alignment on resources with the placement cursor part of 'a refusal changes nothing'; internal TypeErrors on well-formed names are violations; heavy shapes split over processes by the first part",
     "bounds": "up to 3 names (thorough 4) of length 1-2 (pairs up to length 3) over the alphabet "
               "{'a','b','ab','0',0,1}; added as resources, named windows, or resources inside an anonymous window "
               "(absorbed names); an interleaved add that fails for a non-name reason (out-of-bounds address) followed "
@@ -64,7 +64,8 @@ def configs(tier, seed):
     # "ww": a named window holding two named windows that each hold a resource called ("leaf",)
     shared = [[["a", 1], ["r", 1], ["share", 1]], [["a", 1], ["r", 2], ["share", 1]], [["a", 2], ["r", 1], ["share", 2]],
               [["r", 1], ["a", 1], ["share", 1]], [["a", 1], ["w", 1], ["share", 1]], [["aa", 1], ["r", 1], ["share", 1]]]
-    nested = [[["dup", 1]], [["r", 1], ["dup", 1]], [["dup", 2], ["r", 1]],
+    nested = [[["rs"], ["r", 1]], [["rs"], ["r", 2]], [["r", 1], ["rs"]], [["r", 2], ["rs"], ["r", 1]], [["a", 1], ["rs"]],
+              [["dup", 1]], [["r", 1], ["dup", 1]], [["dup", 2], ["r", 1]],
               [["aw", 1], ["r", 1]], [["aw", 1], ["r", 2]], [["aw", 2], ["r", 1]], [["r", 1], ["aw", 1, 1]], [["aw", 1], ["w", 1]],
               [["ww", 1], ["r", 1]], [["ww", 2], ["r", 2]], [["r", 1], ["ww", 1]], [["ww", 1], ["ww", 1]]]
     for s in two + three + shared + nested:
@@ -210,6 +211,23 @@ def harness_for(cfg):
                     E.prove(False, "a name that is already visible was accepted again (same Name object)")
                 except ValueError:
                     E.observe("refused")
+                    E.prove(counts() == before, "refusal changed the map")
+                continue
+            if kind == "rs":
+                # the plain-string shorthand for a one-part name: name="ab" means ("ab",)
+                nm = ("ab",)
+                conf = b_or(*[_conflict(nm, v) for v in visible])
+                try:
+                    root.add_resource(Res(), name="ab", size=1)
+                    E.observe("ok")
+                    E.prove(b_not(conf), "a name conflicting with a visible name was accepted")
+                    visible.append(nm)
+                except TypeError:
+                    E.prove(False, "a well-formed name makes add_resource fail with an internal TypeError")
+                    return
+                except ValueError:
+                    E.observe("refused")
+                    E.prove(conf, "a legal name was refused")
                     E.prove(counts() == before, "refusal changed the map")
                 continue
             if kind in ("r", "rn"):
